@@ -31,6 +31,19 @@ fn verif_replay_c16() {
     let inp: serde_json::Value = serde_json::from_str(&std::fs::read_to_string(std::env::var("VERIF_REPLAY_IN").unwrap()).unwrap()).unwrap();
     if mode == "replay" {
         let w = &inp["input"];
+        if w["kind"] == "law" {
+            let l = w["lambda"].as_f64().unwrap(); let n = 400_000usize; let seed = w["seed"].as_u64().unwrap();
+            let e = ExpRestricted01::new(l);
+            let mut r = ScriptRng { vals: vec![], pos: 0, s: (seed ^ 0x5DEECE66D) | 1 };
+            let mut xs: Vec<f64> = (0..n).map(|_| e.sample(&mut r)).collect();
+            xs.sort_by(|a, b| a.partial_cmp(b).unwrap());
+            let cdf = |x: f64| (-l * x).exp_m1() / (-l).exp_m1();
+            let mut d = 0f64;
+            for (i, x) in xs.iter().enumerate() { let f = cdf(*x); d = d.max((f - i as f64 / n as f64).abs()).max(((i + 1) as f64 / n as f64 - f).abs()); }
+            let stat = d * (n as f64).sqrt();
+            if stat > 2.5 { out(true, w.clone(), format!("KS statistic {stat:.2}"), "< 2.5".into(), 1) } else { out(false, w.clone(), format!("KS statistic {stat:.2}"), "".into(), 1) }
+            return;
+        }
         let script: Vec<u64> = w["script"].as_array().unwrap().iter().map(|x| x.as_u64().unwrap()).collect();
         let x = one(w["lambda"].as_f64().unwrap(), &script, w["seed"].as_u64().unwrap());
         if x >= 0.0 && x < 1.0 { out(false, w.clone(), format!("{x}"), "".into(), 1) } else { out(true, w.clone(), format!("sample = {x}"), "0 <= sample < 1".into(), 1) }
@@ -52,6 +65,22 @@ fn verif_replay_c16() {
             cases += 1;
             let x = one(l, &[], seed.wrapping_add(i * 2 + 1));
             if !(x >= 0.0 && x < 1.0) { out(true, serde_json::json!({"lambda": l, "script": [], "seed": seed.wrapping_add(i * 2 + 1)}), format!("sample = {x}"), "0 <= sample < 1".into(), cases); return; }
+        }
+    }
+    // law (NOT decided by the contracts; seeded Kolmogorov-Smirnov smoke test, outside the deductive technique): thorough tier only
+    if thorough {
+        for &l in &[1e-9f64, 0.0100503, 0.6931, 1.5, 3.0, 10.0, 30.0] {
+            let n = 400_000usize;
+            let e = ExpRestricted01::new(l);
+            let mut r = ScriptRng { vals: vec![], pos: 0, s: (seed ^ 0x5DEECE66D) | 1 };
+            let mut xs: Vec<f64> = (0..n).map(|_| e.sample(&mut r)).collect();
+            xs.sort_by(|a, b| a.partial_cmp(b).unwrap());
+            let cdf = |x: f64| (-l * x).exp_m1() / (-l).exp_m1();
+            let mut d = 0f64;
+            for (i, x) in xs.iter().enumerate() { let f = cdf(*x); d = d.max((f - i as f64 / n as f64).abs()).max(((i + 1) as f64 / n as f64 - f).abs()); }
+            cases += 1;
+            let stat = d * (n as f64).sqrt();
+            if stat > 2.5 { out(true, serde_json::json!({"lambda": l, "script": [], "seed": seed, "kind": "law"}), format!("Kolmogorov-Smirnov sqrt(n) D_n = {stat:.2} for lambda = {l} over {n} seeded samples"), "< 2.5 (exponential law of rate lambda conditioned on [0,1))".into(), cases); return; }
         }
     }
     out(false, serde_json::Value::Null, "all samples in [0,1)".into(), "".into(), cases);
